@@ -2,6 +2,7 @@
 // `-include shim/detsched.h` (std::atomic, std::this_thread token-renamed to scheduler-controlled replacements) and
 // stepped by an explicit schedule.  Each schedule action prints the trace of the atomic access it executed.
 #include "common.h"
+#include <algorithm>
 
 #define private public
 #include "opentelemetry/sdk/common/atomic_unique_ptr.h"
@@ -17,12 +18,18 @@ struct Elem
 {
   static int live;
   static int next_id;
+  static std::vector<int> *dlog;  // when set: ids in order of destruction
   int id;
   explicit Elem(int i) : id(i) { live++; }
-  ~Elem() { live--; }
+  ~Elem()
+  {
+    live--;
+    if (dlog) dlog->push_back(id);
+  }
 };
-int Elem::live    = 0;
-int Elem::next_id = 0;
+int Elem::live              = 0;
+int Elem::next_id           = 0;
+std::vector<int> *Elem::dlog = nullptr;
 
 static std::string show_ids(const std::vector<int> &v)
 {
@@ -40,6 +47,15 @@ static std::string handle_ring(const std::vector<std::string> &t)
   auto ops = vh::split_ops(t, 1);
   if (ops.empty() || ops[0].size() != 5) return "bad-op";
   unsigned long cfg[5];
+  // optional suffixes (the accesses under the scheduler are the same, so is the trace):
+  //   <adds>m          producers use the rvalue overload Add(std::unique_ptr<T> &&)
+  //   <rounds>q|k|n|d  after the drain, unmanaged: max_size / empty / production_count / consumption_count / Peek (Get, IsNull,
+  //                    operator->, range size / empty, ForEach stopped by its callback) are printed as ` q=...`; then what is
+  //                    left is taken out with Consume(n, callback) (q), Clear() (k), Consume(n) (n) or by destroying the
+  //                    buffer with the elements still inside (d: order of destruction is the array's, printed sorted)
+  char add_mode = 0, end_mode = 0;
+  if (!ops[0][2].empty() && ops[0][2].back() == 'm') { add_mode = 'm'; ops[0][2].pop_back(); }
+  if (!ops[0][4].empty() && std::string("qknd").find(ops[0][4].back()) != std::string::npos) { end_mode = ops[0][4].back(); ops[0][4].pop_back(); }
   for (int i = 0; i < 5; i++)
   {
     char *e = nullptr;
@@ -90,9 +106,19 @@ static std::string handle_ring(const std::vector<std::string> &t)
           std::unique_ptr<Elem> e(new Elem(id));
           detsched::name_value(reinterpret_cast<uint64_t>(e.get()), "e" + std::to_string(id));
           detsched::note("begin e" + std::to_string(id));
-          bool ok = buf.Add(e);
-          // a failed Add leaves its element with the caller; a successful one must have taken it
-          if (ok != (e == nullptr)) detsched::note("OWNERSHIP-MISMATCH");
+          bool ok;
+          if (add_mode == 'm')
+          {
+            // the rvalue overload owns its argument whatever happens: a refused element is destroyed (live= at the end), not leaked
+            ok = buf.Add(std::move(e));
+            if (e != nullptr) detsched::note("OWNERSHIP-MISMATCH");
+          }
+          else
+          {
+            ok = buf.Add(e);
+            // a failed Add leaves its element with the caller; a successful one must have taken it
+            if (ok != (e == nullptr)) detsched::note("OWNERSHIP-MISMATCH");
+          }
           rets.push_back({id, ok});
           detsched::note(ok ? "ret 1" : "ret 0");
         }
@@ -127,7 +153,56 @@ static std::string handle_ring(const std::vector<std::string> &t)
     if (!dtrace.empty()) outs.push_back(dtrace.substr(0, dtrace.size() - 3));
     // final, unmanaged: take out whatever is left
     size_t left = stuck ? 0 : buf.size();
-    if (left)
+    std::string q;
+    if (end_mode && !stuck)
+    {
+      const CircularBuffer<Elem> &cb = buf;
+      auto pk                        = cb.Peek();
+      std::vector<int> seen;
+      bool all = pk.ForEach([&](const AtomicUniquePtr<Elem> &ptr) noexcept {
+        bool a = ptr.IsNull(), b = ptr.Get() == nullptr;
+        seen.push_back(a || b ? -1 : (ptr->id == (*ptr).id ? ptr->id : -2));
+        return true;
+      });
+      size_t calls = 0;
+      bool whole   = pk.ForEach([&](const AtomicUniquePtr<Elem> &) noexcept { return ++calls < 2; });
+      q = " q=max:" + std::to_string(cb.max_size()) + ",empty:" + (cb.empty() ? "1" : "0") + ",prod:" +
+          std::to_string(cb.production_count()) + ",cons:" + std::to_string(cb.consumption_count()) + ",peek:" + show_ids(seen) +
+          ",n:" + std::to_string(pk.size()) + ",pe:" + (pk.empty() ? "1" : "0") + ",all:" + (all ? "1" : "0") + ",stop:" +
+          std::to_string(calls) + "/" + (whole ? "1" : "0");
+      // AtomicUniquePtr on its own: the owning constructor, Swap, SwapIfNull on a non-null slot, destruction of the owned element
+      bool aup   = true;
+      int before = Elem::live;
+      {
+        AtomicUniquePtr<Elem> a(std::unique_ptr<Elem>(new Elem(-7)));
+        if (a.IsNull() || a->id != -7 || Elem::live != before + 1) aup = false;
+        std::unique_ptr<Elem> o(new Elem(-8));
+        a.Swap(o);
+        if (!o || o->id != -7 || a.Get() == nullptr || a->id != -8) aup = false;
+        if (a.SwapIfNull(o) || !o) aup = false;  // occupied: refused, the caller keeps its element
+        a.Reset();
+        if (!a.IsNull() || !a.SwapIfNull(o) || o) aup = false;  // empty: taken
+      }
+      if (Elem::live != before) aup = false;
+      q += std::string(",aup:") + (aup ? "1" : "0");
+    }
+    if (end_mode == 'k' || end_mode == 'n')
+    {
+      Elem::dlog = &rest;
+      if (end_mode == 'k') buf.Clear();
+      else buf.Consume(left);
+      Elem::dlog = nullptr;
+      if (!buf.empty() || buf.size() != 0) rest.push_back(-1);
+    }
+    else if (end_mode == 'd' && !stuck)
+    {
+      Elem::dlog = &rest;
+      delete bufp;
+      bufp       = nullptr;
+      Elem::dlog = nullptr;
+      std::sort(rest.begin(), rest.end());
+    }
+    else if (left)
       buf.Consume(left, [&](CircularBufferRange<AtomicUniquePtr<Elem>> &range) noexcept {
         range.ForEach([&](AtomicUniquePtr<Elem> &ptr) noexcept {
           std::unique_ptr<Elem> x;
@@ -144,9 +219,9 @@ static std::string handle_ring(const std::vector<std::string> &t)
     }
     res += "]";
     outs.push_back(std::string("done=") + (done ? "1" : "0") + " res=" + res + " out=" + show_ids(consumed) +
-                   " rest=" + show_ids(rest));
+                   " rest=" + show_ids(rest) + q);
   }
-  if (!stuck) delete bufp;
+  if (!stuck && bufp) delete bufp;
   if (stuck)
   {
     outs.back() += " live=?";
